@@ -309,3 +309,20 @@ def run(case, ctx):
     finally:
         for mn in loaded:
             sys.modules.pop(mn, None)
+
+
+def parent_extra(tier):
+    """thorough tier: the repository's own tests run once more with the harness contracts installed"""
+    if tier != "thorough":
+        return [], {}
+    from vlib import pytest_contracts
+    rep = pytest_contracts.run_repo_tests_under_contracts()
+    if "error" in rep:
+        raise RuntimeError(rep["error"][-200:])
+    counters = {"repo_tests_under_contracts": rep.get("tests", 0)}
+    for k, v in rep.get("contract_evaluations", {}).items():
+        counters["repo_tests_contract_evals:" + k] = v
+    fails = [{"idx": "repo-test:" + b["test"], "spec": {"repo_test": b["test"]}, "kind": "contract-in-repository-test",
+              "key": None, "detail": b["what"][-400:]} for b in rep.get("broken", [])
+             if ("Mutated" in b["what"])]
+    return fails, counters
